@@ -86,7 +86,7 @@ def main():
         "engines": [{"name": "pvmon", "path": "/verif/pvmon", "serves_properties": [c["property_id"] for c in claimed],
                      "kind_free_text": "runtime monitoring harness: recording wrappers/contracts on the real functions, reference-model and paired-execution oracles, shard fan-out with watchdogs, sanitizer-like numba modes"}],
         "checks": claimed,
-        "notes": "Known (unrepaired) findings K1-K10 (K10 also under C04/C05/C08, where it shows through paired F comparisons) are listed in /verif/known_findings.json (mechanism key + defect model evaluated in the check; printed as KNOWN-FINDING); 21 genuine defects were repaired by fix: commits in /repo (same file, 'fixed'). Exit codes: 0 held, 1 violation (VIOLATION line + replay file), 2 inconclusive (never on the unchanged tree). 100 independent seeded changes with demos are archived under /verif/seeded (DESIGN.md 9.5-9.12; tools/regress_seeded.sh re-runs each against its property's check); own mutant catalogue in tools/mutants.json (results tools/mutants_result.json).",
+        "notes": "Known (unrepaired) findings K1-K10 (K10 also under C04/C05/C08, where it shows through paired F comparisons) are listed in /verif/known_findings.json (mechanism key + defect model evaluated in the check; printed as KNOWN-FINDING); 22 genuine defects were repaired by fix: commits in /repo (same file, 'fixed'). Exit codes: 0 held, 1 violation (VIOLATION line + replay file), 2 inconclusive (never on the unchanged tree). 100 independent seeded changes with demos are archived under /verif/seeded (DESIGN.md 9.5-9.12; tools/regress_seeded.sh re-runs each against its property's check); own mutant catalogue in tools/mutants.json (results tools/mutants_result.json).",
         "not_applicable": na,
     }
     with open(os.path.join(HERE, "MANIFEST.json"), "w") as f:
